@@ -13,11 +13,14 @@ var collSQL = vkit.NewCollector("C10", "TestSQLite", rule)
 var collSQLMem = vkit.NewCollector("C10", "TestSQLiteMemory", rule)
 var collDS = vkit.NewCollector("C10", "TestDurable", rule)
 
+var collConc = vkit.NewCollector("C10", "TestConcurrentAppend", "2-8 goroutines append 5-60 events each directly to one store (memory, SQLite file, SQLite :memory:, durable-streams; barrier start, drawn GOMAXPROCS, 3 fresh stores per case, race detector on) while a reader tails the log with chained reads of a drawn page size. Oracle: acknowledged offsets are unique and name their event, the log read after quiescence and the sequence seen by the tailing reader both contain every append exactly once with each goroutine's appends in order, offsets increase along the log. Non-trivial = >=2 writers.")
+
 func TestMain(m *testing.M) { vkit.Main(m) }
 
 func TestMemory(t *testing.T)       { vkit.Check(t, collMem, Gen("memory"), Run) }
 func TestSQLite(t *testing.T)       { vkit.Check(t, collSQL, Gen("sqlite"), Run) }
 func TestSQLiteMemory(t *testing.T) { vkit.Check(t, collSQLMem, Gen("sqlitemem"), Run) }
+func TestConcurrentAppend(t *testing.T) { vkit.Check(t, collConc, GenConc(""), RunConc) }
 func TestDurable(t *testing.T)      { vkit.Check(t, collDS, Gen("durable"), Run) }
 
 var collProbe = vkit.NewCollector("C10", "TestKnownProbes", "deterministic replays of the inputs behind the listed known findings")
@@ -33,5 +36,5 @@ func TestKnownProbes(t *testing.T) {
 
 func TestReplay(t *testing.T) {
 	r := vkit.NeedReplay(t)
-	_ = vkit.ReplayCase(t, r, collFuzz, runFuzzCase) || vkit.ReplayCase(t, r, collMem, Run) || vkit.ReplayCase(t, r, collSQL, Run) || vkit.ReplayCase(t, r, collSQLMem, Run) || vkit.ReplayCase(t, r, collDS, Run)
+	_ = vkit.ReplayCase(t, r, collFuzz, runFuzzCase) || vkit.ReplayCase(t, r, collMem, Run) || vkit.ReplayCase(t, r, collSQL, Run) || vkit.ReplayCase(t, r, collSQLMem, Run) || vkit.ReplayCase(t, r, collDS, Run) || vkit.ReplayCase(t, r, collConc, RunConc)
 }
